@@ -99,9 +99,10 @@ Print Assumptions C14_close.
    handler in any state (counter at a multiple of 4 after the increment, host known), the table
    entry of the source records: flags, preference, hop limit, lifetime, reachable and retransmit
    timers; source link-layer address (and the router's MAC at creation); MTU (in Router.MTU and
-   in Options.MTU); every prefix information option with its masked prefix — exactly as decoded;
-   and the route information / RDNSS / DNSSL options exactly when at most one of each kind is
-   present (the library keeps one struct per kind: recorded findings). *)
+   in Options.MTU); every prefix information option with its masked prefix; EVERY route information,
+   RDNSS and DNSSL option with its own lifetime, in packet order (Options.Routes, RDNSSList,
+   DNSSearchLists) — exactly as decoded; the older single fields keep their documented meaning
+   (legacy_exact: last route, last DNSSL list, last RDNSS lifetime over all servers). *)
 Theorem C14_router_exact : forall st src eth p d,
   bytes_ok p -> ra_decode p = Some d -> processed_ra st -> ra_result st src eth p d.
 Proof. exact router_exact. Qed.
@@ -109,8 +110,7 @@ Print Assumptions C14_router_exact.
 
 Example C14_router_exact_nonvacuous : exists d,
   bytes_ok wit_all /\ ra_decode wit_all = Some d /\ processed_ra (init 3) /\
-  List.length (ra_opts d) = 7%nat /\
-  known_ri_multiple d = false /\ known_rdnss_multiple d = false /\ known_dnssl_multiple d = false.
+  List.length (ra_opts d) = 7%nat.
 Proof. exact router_exact_nonvacuous. Qed.
 Print Assumptions C14_router_exact_nonvacuous.
 
@@ -127,21 +127,15 @@ Theorem C14_router_skipped : forall st src eth p hk,
 Proof. exact router_skipped. Qed.
 Print Assumptions C14_router_skipped.
 
-(* full strength fails for the options that may repeat: witnesses replayed on the real code *)
-Theorem C14_router_exact_routes_refuted : exists p d r, bytes_ok p /\ ra_decode p = Some d /\ processed_ra (init 3) /\
-  learn1 p = Some r /\ known_ri_multiple d = true /\ ~ routes_exact r d.
-Proof. exact routes_refuted. Qed.
-Print Assumptions C14_router_exact_routes_refuted.
-
-Theorem C14_router_exact_rdnss_refuted : exists p d r, bytes_ok p /\ ra_decode p = Some d /\ processed_ra (init 3) /\
-  learn1 p = Some r /\ known_rdnss_multiple d = true /\ ~ rdnss_exact r d.
-Proof. exact rdnss_refuted. Qed.
-Print Assumptions C14_router_exact_rdnss_refuted.
-
-Theorem C14_router_exact_dnssl_refuted : exists p d r, bytes_ok p /\ ra_decode p = Some d /\ processed_ra (init 3) /\
-  learn1 p = Some r /\ known_dnssl_multiple d = true /\ ~ dnssl_exact r d.
-Proof. exact dnssl_refuted. Qed.
-Print Assumptions C14_router_exact_dnssl_refuted.
+(* advertisements with two route / RDNSS / DNSSL options (the witnesses of the former findings
+   ri-multiple, rdnss-multiple, dnssl-multiple) are in the domain of C14_router_exact and both options
+   of each kind are recorded *)
+Example C14_router_exact_multi_nonvacuous :
+  (exists r, learn1 wit_ri = Some r /\ List.length (o_routes (r_opts r)) = 2%nat) /\
+  (exists r, learn1 wit_rdnss = Some r /\ List.length (o_rdnss_all (r_opts r)) = 2%nat) /\
+  (exists r, learn1 wit_dnssl = Some r /\ List.length (o_dnssl_all (r_opts r)) = 2%nat).
+Proof. exact multi_recorded. Qed.
+Print Assumptions C14_router_exact_multi_nonvacuous.
 
 (* ------------------------------------------------------------------ *)
 (* C14_router_persistent.  "Records exactly" holds for as long as the entry lives: after ANY
